@@ -15,7 +15,7 @@ META = {
             "boolean -> Bool, <> -> String). One obligation per operator token. Y5 every arm of infer_pattern that says something about the matched value constrains the pattern's own type variable. Y8 the idx counter runs on across the members of a recursion group. Y7 unify picks the idx of two unsolved variables from both values. Y6 dependency_order_query traverses the body of every function of the module (the groups are complete). Y9 every function of a group is frozen with naming state of its own. Y10 the declared type of a record field is instantiated with the resolver of the declaring module. Y11 what is entered into a scratch collection of the inference context (the aliases being expanded) is taken out again on every path to return.",
     "explanation": "C09 as a whole quantifies over programs and feature interactions of a union-find unifier; no shape argument decides "
                    "it and this check does not pretend to. One clause is structural and necessary: an operator without a typing rule "
-                   "leaves every expression using it (and everything bound to it) untyped. That clause is decided for all 22 operators.",
+                   "leaves every expression using it (and everything bound to it) untyped. That clause is decided for all 22 operators. Y21 label reordering keeps declaration order (no swap_remove / sort / reverse in infer_pattern and unify). Y22 the memo of instantiated parts lives for one instantiation. Y23 = C04 G1 (operator grouping).",
     "not_decided": "everything else in C09: unification, generalisation, labels, pipelines, use, case, cross-module calls (behavioural).",
     "trusted_base": ["Gleam's operator typing as encoded in ORACLE", "rustc MIR"],
     "assumptions": [],
